@@ -10,6 +10,7 @@ mod c09;
 mod ckey;
 mod crash;
 mod c12;
+mod c13;
 mod c19;
 mod rng;
 mod sched;
@@ -82,6 +83,8 @@ fn main() {
         ("store", "exec") => store::exec(&args),
         ("ckey", "exec") => ckey::exec(&args),
         ("c08", "exec") => c08::exec(&args),
+        ("c13", "gen") => c13::gen(&args),
+        ("c13", "exec") => c13::exec(&args),
         ("c19", "gen") => c19::gen(&args),
         ("c19", "exec") => c19::exec(&args),
         ("c19", "child") => c19::child(&args),
